@@ -112,3 +112,44 @@ Theorem c04_script_exact_on_core_ext : forall noise e ss,
   script_pairs e false [] (map (r_stmt noise) ss) = spec_script_pairs (e_cfg e) ss.
 Proof. exact script_exact_on_core_ext. Qed.
 Print Assumptions c04_script_exact_on_core_ext.
+
+(** ... to scripts containing statements with WHERE c IN (sub-query) (Tree/ScriptExactWhere.v).  Here the unguarded statement is
+    FALSE, and the counterexample is the recorded defect K-C04-3 seen at script level: a column that an earlier statement writes
+    and that is only consumed inside a sub-query (a dead end there) stops being a leaf, so the pair ending at it is hidden:
+    [insert into u select b from v; insert into x select a from t where a in (select b from u)] reports t.a>x.a only.  The
+    executable guard [dead_ends_okb] (every sub-query source column that some flow of the script writes is also read by a
+    flow of the script) is the weakest simple condition under which the theorem holds. *)
+From SV Require Import Tree.ScriptExactWhere.
+
+Theorem c04_script_exact_on_core_with_where_in : forall noise e ss,
+  noise_ok noise = true -> env_ok e = true -> Forall core_stmt_w ss -> dead_ends_okb (e_cfg e) ss = true ->
+  script_pairs e false [] (map (r_stmt noise) ss) = spec_script_pairs (e_cfg e) ss.
+Proof. exact script_exact_on_core_wherein. Qed.
+Print Assumptions c04_script_exact_on_core_with_where_in.
+
+Theorem c04_dead_end_in_sub_query_hides_pair_refuted :
+  ~ (forall noise e ss, noise_ok noise = true -> env_ok e = true -> Forall core_stmt_w ss ->
+       script_pairs e false [] (map (r_stmt noise) ss) = spec_script_pairs (e_cfg e) ss).
+Proof. exact script_exact_on_core_wherein_unguarded_refuted. Qed.
+Print Assumptions c04_dead_end_in_sub_query_hides_pair_refuted.
+
+(** * The session clause (Tree/LemmaC04Session.v): what a later statement knows about a table created earlier in the script.
+    CREATE TABLE t AS SELECT items FROM .. ; INSERT INTO x SELECT * FROM t  under a provider with ANY catalog [base] (it may know
+    nothing about t, or hold an OLD definition of t - the script's definition wins; it may know the sources): the star expands
+    to exactly the columns the first statement gave t, and the script reports the composed pairs.  Any trivia, any plain items,
+    any FROM of distinct tables with resolved references. *)
+From SV Require Import Tree.LemmaAMeta Tree.LemmaBMeta Tree.LemmaC04Session Ast.SpecMeta.
+
+Theorem c04_created_table_is_known_to_later_star : forall noise e base t items from cj x cj',
+  let s1 := SCtas t (QSelect items from cj None) in
+  let s2 := SInsert x None (QSelect [IStar None] [RTable t None] cj' None) in
+  noise_ok noise = true -> env_ok_md e = true -> p_truthy (e_provider e) = true ->
+  stmt_ok s1 = true -> sshape s1 = true -> colshape s1 = true -> sel_tables_syntactic s1 = true -> unq_single s1 = true ->
+  items_plain_b items = true -> items <> [] ->
+  stmt_ok s2 = true -> sshape s2 = true -> colshape s2 = true ->
+  is_known base (tref_str (e_cfg e) x) = false ->
+  script_pairs e false base [r_stmt noise s1; r_stmt noise s2] =
+  uniq_sorted (sort_strings (pairs_of (stmt_edges (e_cfg e) s1 ++
+     map (fun nm => ((tref_str (e_cfg e) t, nm), (tref_str (e_cfg e) x, nm))) (map item_name items)))).
+Proof. exact c04_created_table_known_to_later_star. Qed.
+Print Assumptions c04_created_table_is_known_to_later_star.
